@@ -554,6 +554,8 @@ class Runner:
             if setup is not None:
                 self.setup_out = [self.one(srv, ui, r) for ui, r in setup[1]]
                 self.install_policy(pols)
+            if getattr(self, "plant", None):
+                self.plant(srv)       # stored content no request can create (placed in the folder by other means)
             self.dumps = []
             self.pre = []
             self.probes = []
